@@ -199,8 +199,42 @@ func (e *Engine) Load(patterns []string) error {
 		}
 	})
 	// index functions
+	var addFn func(fn *ssa.Function)
+	addFn = func(fn *ssa.Function) {
+		if fn == nil {
+			return
+		}
+		k := funcKey(fn)
+		if old, ok := e.funcsByKey[k]; ok && (old == fn || len(old.Blocks) >= len(fn.Blocks)) {
+			return
+		}
+		e.funcsByKey[k] = fn
+		for _, a := range fn.AnonFuncs {
+			addFn(a)
+		}
+	}
 	for fn := range ssautil.AllFunctions(prog) {
-		e.funcsByKey[funcKey(fn)] = fn
+		addFn(fn)
+	}
+	// methods of unexported types are not reached by AllFunctions
+	for _, sp := range e.ssaPkgs {
+		for _, m := range sp.Members {
+			switch x := m.(type) {
+			case *ssa.Function:
+				addFn(x)
+			case *ssa.Type:
+				nt, ok := x.Type().(*types.Named)
+				if !ok || nt.TypeParams().Len() > 0 {
+					continue
+				}
+				for _, t := range []types.Type{nt, types.NewPointer(nt)} {
+					ms := prog.MethodSets.MethodSet(t)
+					for i := 0; i < ms.Len(); i++ {
+						addFn(prog.MethodValue(ms.At(i)))
+					}
+				}
+			}
+		}
 	}
 	_ = ast.Inspect
 	return nil
@@ -471,7 +505,7 @@ func (ex *Exec) frameObligations(env0 *SpecEnv, entry, out *State, c *Contract) 
 			continue
 		}
 		o := Fresh("o", SInt)
-		conds := []*Term{Ge(o, Int(0)), Le(o, entry.wm)}
+		conds := []*Term{Ge(o, Int(1)), Le(o, entry.wm)}
 		for _, ix := range allowed[n] {
 			conds = append(conds, Ne(o, ix))
 		}
